@@ -49,15 +49,15 @@ def nyqfree(a, D, N):
     return f(a, D, N)
 
 
-def t_translation(cls, D, N, order, shift, seed):
+def t_translation(cls, D, N, order, shift, seed, opts=None):
     ex, jnp = _ex()
     kw = dict(order=order) if registry.has_order(cls) and cls != "DifficultyLinearStepperSimple" else {}
-    s = registry.make(cls, D, N, dt=0.02, **kw)
+    s = registry.make(cls, D, N, dt=0.02, **kw, **dict(opts or {}))
     u = jnp.asarray(0.4 * np.random.default_rng(seed).standard_normal((s.num_channels,) + (N,) * D))
     T = lambda v: jnp.roll(v, tuple(shift), axis=tuple(range(1, D + 1)))
     a, b = np.asarray(s(T(u))), np.asarray(T(s(u)))
     err = np.max(np.abs(a - b)) / (1 + np.max(np.abs(b)))
-    return err < 1e-11, f"{cls} D={D} N={N} order={order} shift={shift}: |step(T u) - T step(u)| = {err:.3e}"
+    return err < 1e-11, f"{cls}{opts or ''} D={D} N={N} order={order} shift={shift}: |step(T u) - T step(u)| = {err:.3e}"
 
 
 ISO_SCALAR = ["Diffusion", "HyperDiffusion", "KuramotoSivashinsky", "AllenCahn", "CahnHilliard", "FisherKPP", "SwiftHohenberg", "GrayScott", "GeneralLinearStepper",
@@ -138,6 +138,13 @@ def witness(ctx):
                     if "Kolmogorov" in cls or (cls == "GeneralVorticityConvectionStepper"):
                         sh = [0 if a == 1 else sh[a] for a in range(D)]      # forcing varies along axis 1 only
                     ctx.check("translation", dict(cls=cls, D=D, N=N, order=order, shift=sh, seed=ctx.seed))
+    # every boolean constructor flag flipped (all combinations in the thorough tier)
+    for j, cls in enumerate(names):
+        for opts in registry.flag_variants(cls, single=not deep):
+            ds = registry.dims(cls)
+            for D in (ds if deep else (ds[(j + ctx.seed) % len(ds)],)):
+                N = {1: 10, 2: 8, 3: 6}[D] if (j + ctx.seed) % 2 else {1: 9, 2: 7, 3: 7}[D]
+                ctx.check("translation", dict(cls=cls, D=D, N=N, order=2, shift=[int(x) for x in rng.integers(1, N, size=D)], seed=ctx.seed, opts=opts))
     # exhaustive shifts on a small grid for two nonlinear steppers, and a grid with fractional dealiasing cutoff
     for sh in (itertools.product(range(6), repeat=2) if deep else [(1, 0), (0, 5), (3, 2), (5, 5)]):
         ctx.check("translation", dict(cls="Burgers", D=2, N=6, order=2, shift=list(sh), seed=ctx.seed), nontrivial=any(sh))
